@@ -1,7 +1,6 @@
 """C08 — common-subexpression elimination never changes a result; temporaries are single-assignment."""
 from __future__ import annotations
 
-import inspect
 import re
 
 import mpmath as mp
@@ -24,9 +23,10 @@ RULE = (
     "outputs also against the reference; (c) text-level SSA predicate over every function body of the CSE-on source: "
     "each `double _tN` declared once, every _tM used only after its declaration in the same body, right-hand sides of "
     "temporaries mention only state./calibration./control. accessors, dt, literals, libm functions and earlier "
-    "temporaries; (d) Python BasicBlock prefix: temporary names unique, the i-th prefix callable takes exactly arglist + "
-    "i earlier temporaries, body callables take arglist + all temporaries. Non-trivial = the generated code (or "
-    "sympy.cse on the model) has >=2 temporaries and one references another; distinct = sha1(model spec)."
+    "temporaries. The Python back-end is judged by values only (its temporaries are not 'generated code'; their count and "
+    "nesting are read from the compiled blocks for the statistics when the layout is the pinned one, else from sympy.cse). "
+    "Non-trivial = the generated code (or sympy.cse on the model) has >=2 temporaries and one references another; "
+    "distinct = sha1(model spec)."
 )
 ASSUMPTIONS = c02.ASSUMPTIONS + ["SSA predicate is textual (regex over the generated source layout)"]
 BUDGET = {
@@ -102,25 +102,21 @@ def cases(draw, cpp=False):
     return {"layer": "cpp" if cpp else "python", "model": spec, "process": pts, "update": up}
 
 
-def prefix_check(ctx, spec, block, what):
-    temps = [str(t) for t, _ in block._prefix]
-    if len(set(temps)) != len(temps):
-        ctx.fail("python:temporary-assigned-twice", f"{what}: {temps}", spec)
-    base = len(block._arglist)
-    for i, (t, fn) in enumerate(block._prefix):
-        npar = len(inspect.signature(fn).parameters)
-        if npar != base + i:
-            ctx.fail("python:prefix-signature", f"{what}: temporary {t} takes {npar} parameters, expected arglist({base}) + {i} earlier temporaries", spec)
-    for fn in block._body:
-        npar = len(inspect.signature(fn).parameters)
-        if npar != base + len(temps):
-            ctx.fail("python:body-signature", f"{what}: body takes {npar} parameters, expected {base + len(temps)}", spec)
-    nested = False
-    for t, fn in block._prefix:
-        doc = fn.__doc__ or ""
-        if "return" in doc and TEMP.search(doc.split("return", 1)[1].split("Imported modules")[0]):
-            nested = True
-    return len(temps), nested
+def prefix_stats(block):
+    """(number of temporaries, nested?) read from the compiled block as laid out at the pinned commit: `_prefix` a list of
+    (symbol, lambdified callable whose docstring shows the expression). This is measurement only (non-triviality and the
+    evidence distribution): the Python back-end is judged by the VALUES it produces, so a refactoring that stores its
+    temporaries differently must neither fail nor break this check; None when the layout is not recognised."""
+    try:
+        temps = [str(t) for t, _ in block._prefix]
+        nested = False
+        for t, fn in block._prefix:
+            doc = fn.__doc__ or ""
+            if "return" in doc and TEMP.search(doc.split("return", 1)[1].split("Imported modules")[0]):
+                nested = True
+        return len(temps), nested
+    except Exception:
+        return None
 
 
 def python_part(spec, ctx):
@@ -132,16 +128,19 @@ def python_part(spec, ctx):
         with ctx.formak("compile_ekf:cse=off", spec):
             off = models.compile_py_ekf(m, common_subexpression_elimination=False)
     ntemps, nested = 0, False
-    blocks = [("model", on._state_model._impl), ("process_jacobian", on._impl_process_jacobian),
-              ("control_jacobian", on._impl_control_jacobian)]
-    blocks += [(f"sensor[{k}]", sm._impl) for k, sm in on.sensor_models.items()]
-    blocks += [(f"sensor_jacobian[{k}]", b) for k, b in on._impl_sensor_jacobians.items()]
-    for what, b in blocks:
-        nt_b, nested_b = prefix_check(ctx, spec, b, what)
-        ntemps, nested = max(ntemps, nt_b), nested or (nested_b and nt_b >= 2)
-    for what, b in [("model", off._state_model._impl), ("process_jacobian", off._impl_process_jacobian)]:
-        if b._prefix:
-            ctx.fail("python:cse-off-has-temporaries", what, spec)
+    try:
+        blocks = [on._state_model._impl, on._impl_process_jacobian, on._impl_control_jacobian]
+        blocks += [sm._impl for sm in on.sensor_models.values()]
+        blocks += list(on._impl_sensor_jacobians.values())
+        stats = [prefix_stats(b) for b in blocks]
+    except Exception:
+        stats = [None]
+    if any(s_ is None for s_ in stats):
+        ctx.event("py_block_layout_unrecognised(sympy.cse_used_for_stats)")
+        ntemps, nested = models.cse_stats(m)
+    else:
+        for nt_b, nested_b in stats:
+            ntemps, nested = max(ntemps, nt_b), nested or (nested_b and nt_b >= 2)
 
     for x in spec["process"]:
         p, P = x["point"], x["P"]
@@ -152,7 +151,6 @@ def python_part(spec, ctx):
             with ctx.formak(f"evaluate:cse={tag}", spec):
                 pm = f.process_model(dt, state, cov, control)
                 res[tag] = {
-                    "model": np.asarray(f._state_model.model(dt, state, control).data, float),
                     "G": np.asarray(f.process_jacobian(dt, state, control), float),
                     "V": np.asarray(f.control_jacobian(dt, state, control), float),
                     "px": np.asarray(pm.state.data, float), "pP": np.asarray(pm.covariance.data, float),
@@ -167,8 +165,8 @@ def python_part(spec, ctx):
             xref, Pref, Pscale, G, V = oracle.ref_predict(m, p, oracle.mp_from_np(np.array(P, float)))
             for tag in ("on", "off"):
                 for i, s in enumerate(st_):
-                    if not oracle.close(res[tag]["model"][i, 0], refm[s][0], refm[s][1]):
-                        ctx.fail(f"python:value:model:cse={tag}", f"state {s!r}: {res[tag]['model'][i, 0]!r} ref {float(refm[s][0])!r}", spec)
+                    if not oracle.close(res[tag]["px"][i, 0], refm[s][0], refm[s][1]):
+                        ctx.fail(f"python:value:model:cse={tag}", f"state {s!r}: {res[tag]['px'][i, 0]!r} ref {float(refm[s][0])!r}", spec)
                 c03.check_matrix(ctx, spec, f"process_jacobian:cse={tag}", res[tag]["G"], st_, st_, jr, (len(st_), len(st_)))
                 c03.check_matrix(ctx, spec, f"control_jacobian:cse={tag}", res[tag]["V"], st_, ct, jr, (len(st_), len(ct)))
                 ok, w = oracle.mat_close(res[tag]["pP"], Pref, Pscale)
